@@ -46,6 +46,17 @@ def gen(tier, rng):
             if st in (200, 204, 400):
                 base.append((c05.http_line("sync", kind, False, st, c05.CTS[1], bs[1][1]), "status-grid/success-doc"))
                 base.append((c05.http_line("sync", kind, False, st, c05.CTS[1], bs[2][1]), "status-grid/error-doc"))
+    # literals that are new in the source (gen/srclit.py): statuses, media types, sizes, member names - every kind, all variants
+    base += [(l, "source-literal") for (l, lab) in c05.source_literal_http(kinds, rng)][:: 3]
+    from gen import srclit as SL
+    for kk in SL.sizes(limit=P.U64, lo=0):
+        for s in P.scripts(2):
+            for term in ("success", "denied"):
+                for iv, ce in ((str(kk), None), ("5", kk * P.NS if kk * P.NS <= P.DMAX else None), (str(kk), kk * 10 ** 6 if kk * 10 ** 6 <= P.DMAX else 0)):
+                    base.append((P.line("sync", iv, ce, None, 10 ** 6, True, P.steady_clock(1700000000 * P.NS, len(s) + 3), list(s) + [term]), "source-literal/poll-loop"))
+        if 1 <= kk <= 300:
+            for kd in P.NONDEC:
+                base.append((P.line("sync", "1", None, None, 10 ** 7, True, P.steady_clock(0, kk + 4), [kd] * (kk + 1) + ["success"]), "source-literal/script-length"))
     # the poll loop
     for s in P.scripts(3 if tier == "quick" else 4):
         for term in ("success", "denied", "malformed200"):
